@@ -947,9 +947,6 @@ func (p *pp) printArg(arg Object, verb rune) {
 	case 'T':
 		p.fmt.fmtS(arg.TypeName())
 		return
-	case 'v':
-		p.fmt.fmtS(arg.String())
-		return
 	}
 
 	// Some types can be done without reflection.
